@@ -128,6 +128,8 @@ func c05Err(err error) string {
 		return "toosmall"
 	case err == ige.ErrDataNotDivisible || strings.Contains(err.Error(), ige.ErrDataNotDivisible.Error()):
 		return "notdivisible"
+	case strings.Contains(err.Error(), "auth key is too short"):
+		return "shortKey"
 	}
 	return "other"
 }
